@@ -78,7 +78,7 @@ class SpyCtl:
         return best[0], list(best[1].parts)
 
     def open_handles(self):
-        return [h for h in self.handles if h.state == "open"]
+        return [h for h in self.handles if h.state in ("open", "opening")]
 
 
 class SpyFS(pathio.AbstractPathIO):
@@ -199,6 +199,8 @@ class SpyFS(pathio.AbstractPathIO):
             if h.file is not None:
                 # the open happened but its result never reached the caller
                 h.state = "dropped"
+                b, segs = ctl.vpath(path)
+                ctl.net.log("Fs", s=h.session, op="close", base=b, path=segs, k=0, res="dropped", h=h.hid)
                 if not isinstance(h.file, io.BytesIO):
                     try:
                         h.file.close()
